@@ -8,7 +8,7 @@ export GOFLAGS=-mod=mod GOPROXY=off GOSUMDB=off GOTOOLCHAIN=local
 git -C "$wt" checkout -q -- . ; git -C "$wt" clean -fdq
 first=$(head -1 "$d/demo_test.go")
 place=$(echo "$first" | sed -n 's/.*place in \([^ ;]*\).*/\1/p'); place=${place%/}
-runcmd=$(echo "$first" | sed -n 's/.*run: *\(.*\)$/\1/p')
+runcmd=$(echo "$first" | sed -n 's/.*run: *\(.*\)$/\1/p' | sed 's/  *(.*$//')
 [ -z "$place" ] && { echo "confirm: cannot parse placement from: $first"; exit 2; }
 [ -z "$runcmd" ] && runcmd="go test -vet=off -count=1 -run TestSeededDemo ./${place#v8/}/"
 demo="$wt/$place/zz_seeded_demo_test.go"
